@@ -40,7 +40,8 @@ IDS = ["TEXT", "NAME", "NUMBER", "WARN", "ERROR", "TABLE.BORDER", "TABLE.WARN", 
        "RECORD.KEYWORD", "RECORD.TITLE", "RECORD.COL_TITLE", "GHIST.REPO", "GHIST.BRANCH", "GHIST.HASH", "GHIST.VERSION",
        "GHIST.VER_NOT_BUILT", "GHIST.VER_NOT_MERGED", "HDOC.ATTR", "HDOC.TAG", "HDOC.FUNC_NAME"]
 COLORS = ["RED", "GREEN:bold", "BLUE/YELLOW", "200", "(1,2,3)", "g7:underline", "KEYWORD", "OK:crossed", "-", "MAGENTA:faint",
-          "CYAN/g3:blink", "X.A:bold", "USER.B"]
+          "CYAN/g3:blink", "X.A:bold", "USER.B", "MAGENTA:no_faint", "GREEN:no_bold", "g7:no_underline", "RED:bold,no_blink",
+          "RED:blink,no_bold", "BLUE/YELLOW:crossed", "BLUE/YELLOW:no_crossed", "KEYWORD:no_bold", "/g3", "CYAN/-"]
 REG_ITEMS = [{"X.A": "RED"}, {"USER.B": "BLUE:underline"}, {"X.A": "GREEN", "X.C": "X.A:bold"}, {"Y.UNUSED": "WARN"}]
 
 
@@ -291,6 +292,11 @@ def st_obj(draw):
         fmt = ",".join("%s:%d" % (fn, draw(st.integers(1, 8))) for fn in fields)
         return {"k": "record", "fields": fields, "record": rec, "fmt": fmt}
     if k == "ghist":
+        if draw(st.booleans()):
+            from checks import c06_history_report as c6
+            gen = draw(c6.st_case(max_commits=6))
+            gen.pop("render", None)
+            return {"k": "ghist", "gen": gen}
         return {"k": "ghist", "which": draw(st.integers(0, 1))}
     if k == "hdoc":
         return {"k": "hdoc", "target": draw(st.sampled_from(["Sample", "sample_obj", "sample_method", "caller_obj", "Caller"])),
